@@ -1,6 +1,11 @@
 package nbhttp
 
-import "github.com/lesismal/nbio/mempool"
+import (
+	"bytes"
+	"net/http"
+
+	"github.com/lesismal/nbio/mempool"
+)
 
 // C11 (HTTP part) — pooled-buffer ownership in the response writer: the C09
 // handler programs run on a tracking allocator; every access to a freed buffer
@@ -34,5 +39,165 @@ func verifHarness_C11_response_identity() {
 func verifHarness_C11_response_connection_error() {
 	cfg := verifC09Cfg{shortHead: true, declareCL: verifChoose("declare_cl", 2) == 1, http10: verifChoose("http10", 2) == 1, failAt: verifChoose("fail_at", 4)}
 	verifC11Response(cfg, verifC11Sizes(), "connection-error")
+	verifAssert(false, "witness")
+}
+
+// ---- request bodies: BodyReader holds the body in pooled buffers, frees each
+// one as it is read out, and frees the rest on Close.
+
+func verifSmallTracker() *verifTrackAlloc {
+	verifPoolMode(1)
+	return &verifTrackAlloc{inner: mempool.New(4, 1<<20)}
+}
+
+// programs of append / Read / Close directly on a BodyReader, sizes the solver's
+func verifHarness_C11_body_reader_ops() {
+	verifBound("ops", 4)
+	verifBound("append_max", 6)
+	verifBound("read_max", 7)
+	tr := verifSmallTracker()
+	e := verifHTTPEngine()
+	e.BodyAllocator = tr
+	br := NewBodyReader(e)
+	var appended, read []byte
+	closed := false
+	for s := 0; s < 4; s++ {
+		switch verifChoose("op", 3) {
+		case 0:
+			n := verifConc(verifInt("append_len", 1, 6))
+			data := verifBytes("d", n)
+			if closed {
+				continue // the parser never appends to a released body
+			}
+			err := br.append(append([]byte(nil), data...))
+			verifAssertD(err == nil, "body-append-within-limit-succeeds", "")
+			appended = append(appended, data...)
+		case 1:
+			m := verifConc(verifInt("read_len", 1, 7))
+			buf := make([]byte, m)
+			n, _ := br.Read(buf)
+			if closed {
+				verifAssertD(n == 0, "closed-body-reads-nothing", "")
+				continue
+			}
+			read = append(read, buf[:n]...)
+			want := len(appended) - (len(read) - n)
+			if want > m {
+				want = m
+			}
+			verifAssertD(n == want, "body-read-returns-what-is-buffered", "")
+		case 2:
+			_ = br.Close()
+			closed = true
+		}
+		verifAssertD(len(read) <= len(appended) && verifEqBytes(read, appended[:len(read)]), "body-bytes-read-are-the-bytes-appended", "")
+		if !closed {
+			verifAssertD(br.Left() == len(appended)-len(read), "body-left-is-unread-count", "")
+		}
+	}
+	_ = br.Close() // what releaseRequest does
+	_ = br.Close()
+	verifAssertD(tr.frees <= tr.mallocs, "frees-bounded-by-allocations", "body")
+	verifAssert(false, "witness")
+}
+
+// the same buffers through the real server Parser: a POST body (Content-Length
+// or chunked) arriving in two reads, a handler that reads none / some / all of
+// it, then the next request, an over-long body, a framing error or a lost
+// connection.
+func verifHarness_C11_request_body_paths() {
+	tr := verifSmallTracker()
+	mempool.DefaultMemPool = tr
+	e := verifHTTPEngine()
+	e.BodyAllocator = tr
+	e.MaxHTTPBodySize = 8
+	readMode := verifChoose("handler_reads", 3)
+	var seenBody []byte
+	handled := 0
+	e.Handler = http.HandlerFunc(func(w http.ResponseWriter, r *http.Request) {
+		handled++
+		switch readMode {
+		case 1:
+			b := make([]byte, 2)
+			n, _ := r.Body.Read(b)
+			seenBody = append(seenBody, b[:n]...)
+		case 2:
+			b := make([]byte, 3)
+			for {
+				n, err := r.Body.Read(b)
+				seenBody = append(seenBody, b[:n]...)
+				if err != nil || n == 0 {
+					break
+				}
+			}
+		}
+		_, _ = w.Write([]byte("ok"))
+	})
+	conn := &verifNetConn{failAt: -1}
+	p := NewParser(conn, e, NewServerProcessor(), false, nil)
+	n := []int{1, 3, 6}[verifChoose("body_len", 3)]
+	body := verifBytes("b", n)
+	var w []byte
+	form := verifChoose("form", 4)
+	switch form {
+	case 0: // Content-Length
+		w = append(w, "POST / HTTP/1.1\r\nHost: h\r\nContent-Length: "...)
+		w = append(w, byte('0'+n), '\r', '\n', '\r', '\n')
+		w = append(w, body...)
+	case 1: // chunked, two chunks
+		k := n / 2
+		w = append(w, "POST / HTTP/1.1\r\nHost: h\r\nTransfer-Encoding: chunked\r\n\r\n"...)
+		if k > 0 {
+			w = append(w, byte('0'+k), '\r', '\n')
+			w = append(w, body[:k]...)
+			w = append(w, '\r', '\n')
+		}
+		w = append(w, byte('0'+n-k), '\r', '\n')
+		w = append(w, body[k:]...)
+		w = append(w, "\r\n0\r\n\r\n"...)
+	case 2: // over the body limit (9 > 8), announced by Content-Length
+		w = append(w, "POST / HTTP/1.1\r\nHost: h\r\nContent-Length: 9\r\n\r\n"...)
+		w = append(w, body...)
+		w = append(w, "123456789"[:9-n]...)
+	case 3: // chunked, second chunk size malformed
+		w = append(w, "POST / HTTP/1.1\r\nHost: h\r\nTransfer-Encoding: chunked\r\n\r\n"...)
+		w = append(w, byte('0'+n), '\r', '\n')
+		w = append(w, body...)
+		w = append(w, "\r\nZ\r\n"...)
+	}
+	if form <= 1 && verifChoose("successor", 2) == 1 {
+		w = append(w, "GET /n HTTP/1.1\r\nHost: h\r\n\r\n"...)
+	}
+	// the cut falls early in the head (a cached partial header) or anywhere from
+	// the end of the head on (bodies, chunk framing, the successor)
+	hdrEnd := bytes.Index(w, []byte("\r\n\r\n")) + 4
+	cut := 7
+	if verifChoose("cut_in_body", 2) == 1 {
+		cut = verifConc(verifInt("cut", hdrEnd-2, len(w)))
+	}
+	a := append([]byte(nil), w[:cut]...)
+	err := p.Parse(a)
+	for i := range a {
+		a[i] = 0xEE
+	}
+	lost := verifChoose("connection_lost_after_first_read", 2) == 1
+	if err == nil && !lost && cut < len(w) {
+		b := append([]byte(nil), w[cut:]...)
+		err = p.Parse(b)
+		for i := range b {
+			b[i] = 0xEE
+		}
+	}
+	if form <= 1 && !lost {
+		verifAssertD(err == nil, "well-formed-request-accepted", "body")
+		if readMode == 2 && handled >= 1 {
+			verifReach("body-read-by-handler")
+			verifAssertD(verifEqBytes(seenBody, body), "handler-reads-the-body-bytes", "")
+		}
+	}
+	// the engine closes the connection on a parse error or a lost connection
+	p.CloseAndClean(err)
+	p.CloseAndClean(err)
+	verifAssertD(tr.frees <= tr.mallocs, "frees-bounded-by-allocations", "request")
 	verifAssert(false, "witness")
 }
